@@ -179,7 +179,7 @@ example : (binOps 3 11).gen = 2 := by decide +kernel
 theorem lookup_some_ok : ∃ p n cs, Conway.lookupIn Gen.dbText p n = .ok cs := by
   obtain ⟨hlen, -, -⟩ := C04.db_shape
   cases hdb : Conway.parseDB Gen.dbText with
-  | nil => rw [hdb] at hlen; cases hlen
+  | nil => rw [hdb] at hlen; exact absurd hlen (by decide)
   | cons e t =>
     exact ⟨e.1, e.2.1, e.2.2, C04.lookup_present (by rw [hdb]; exact List.mem_cons_self)⟩
 
